@@ -261,3 +261,5 @@ c16l!(c16_loop_da_sa_sb, [DA, SA, SB], false);
 c16l!(c16_loop_sa_da_sa_rev, [SA, DA, SA], true);
 // @h props=C16,C17 tier=thorough cap=1200 desc="real aggregate_loop: set a, set b, deleted b" bounds="3 events queued"
 c16l!(c16_loop_sa_sb_db, [SA, SB, DB], false);
+// @h props=C16,C17 tier=quick cap=1200 desc="real aggregate_loop: set a, set b, set b - the forced flush comes with the LAST event, then silence: the re-buffered event must still be flushed by the timer armed earlier" bounds="3 events queued; timers fire when idle"
+c16l!(c16_loop_sa_sb_sb, [SA, SB, SB], false);
